@@ -16,6 +16,7 @@ CMP_ORDERING = ['Less', 'Equal', 'Greater']          # discriminants -1, 0, 1
 ATOMIC_ORDERING = ['Relaxed', 'Release', 'Acquire', 'AcqRel', 'SeqCst']
 
 MODELS = []          # (compiled regex, fn, name)
+FRONT_MODELS = []    # models that deliberately take precedence over crate functions (logging, formatting helpers)
 # constants of external crates the dump only names: last path segment -> (pattern the path must match, value)
 EXTERNAL_CONSTS = {'MAGICNUMBER': (r'zstd', 0xFD2FB528), 'CLEVEL_DEFAULT': (r'zstd', 3)}
 
@@ -23,7 +24,7 @@ EXTERNAL_CONSTS = {'MAGICNUMBER': (r'zstd', 0xFD2FB528), 'CLEVEL_DEFAULT': (r'zs
 def model(pat, front=False):
     def deco(fn):
         ent = (re.compile(pat), fn, fn.__name__ if fn.__name__ != '_' else pat)
-        if front: MODELS.insert(0, ent)
+        if front: MODELS.insert(0, ent); FRONT_MODELS.append(ent)
         else: MODELS.append(ent)
         return fn
     return deco
@@ -640,9 +641,22 @@ class Engine:
         if r is not None: return r
         c = normalize(strip_generics(callee))
         r = None
-        for pat, fn, name in MODELS:
+        for pat, fn, name in FRONT_MODELS:
             if pat.search(c):
                 r = ('model', fn, name); break
+        if r is None and c in self.mir.funcs and '<impl' not in c:
+            pass
+        if r is None:
+            # an inherent / free function of the crate named exactly by the callee wins over a library model whose
+            # pattern merely matches the text (e.g. `SlotMutex::lock` vs the model of `Mutex::lock`)
+            m = re.match(r'(?:[\w:]*::)?(\w+)::(\w+)$', c)
+            if m and (m.group(1) in self.src.structs or m.group(1) in self.src.enums):
+                fs = self.by_impl.get((m.group(1), None, m.group(2)))
+                if fs and len(fs) == 1: r = ('func', fs[0])
+        if r is None:
+            for pat, fn, name in MODELS:
+                if pat.search(c):
+                    r = ('model', fn, name); break
         if r is None:
             r = self._resolve_crate(c)
         self.callee_cache[callee] = r
